@@ -99,7 +99,7 @@ fn vec_is<A: PartialEq>(v: &Vec<A>, want: &[A]) -> bool {
 }
 
 // bound: KeyValuePairs / NonEmptyKeyValuePairs with 0..=2 symbolic entries, Def and Indef (concrete per harness), key/value types from {bool,u8,u32,u64} (2 entries of integer type: thorough only)
-v2b!(c03_q_v2b_kvp_def0, KeyValuePairs<u8, u8>, 3, (), KeyValuePairs::Def(vec![]), |g| kv_is(g, true, &[]), |n| n == 1);
+v2b!(c03_t_v2b_kvp_def0, KeyValuePairs<u8, u8>, 3, (), KeyValuePairs::Def(vec![]), |g| kv_is(g, true, &[]), |n| n == 1);
 v2b!(c03_q_v2b_kvp_indef0, KeyValuePairs<u8, u8>, 3, (), KeyValuePairs::Indef(vec![]), |g| kv_is(g, false, &[]), |n| n == 2);
 v2b!(c03_q_v2b_kvp_def1_u32_u64, KeyValuePairs<u32, u64>, 4, (a: (u32, u64)), KeyValuePairs::Def(vec![a]), |g| kv_is(g, true, &[a]), |n| n == 15);
 v2b!(c03_q_v2b_kvp_indef1_u8_u8, KeyValuePairs<u8, u8>, 4, (a: (u8, u8)), KeyValuePairs::Indef(vec![a]), |g| kv_is(g, false, &[a]), |n| n == 6);
@@ -112,7 +112,7 @@ v2b!(c03_q_v2b_nekvp_indef2_bool, NonEmptyKeyValuePairs<bool, bool>, 5, (a: (boo
 v2b!(c03_t_v2b_nekvp_indef2_u8_u32, NonEmptyKeyValuePairs<u8, u32>, 5, (a: (u8, u32), b: (u8, u32)), NonEmptyKeyValuePairs::Indef(vec![a, b]), |g| nekv_is(g, false, &[a, b]), |n| n == 6);
 
 // bound: MaybeIndefArray with 0..=2 symbolic elements of bool/u8/u32/u64, Def and Indef (concrete per harness; 2 integer elements: thorough only)
-v2b!(c03_q_v2b_mia_def0, MaybeIndefArray<u8>, 3, (), MaybeIndefArray::Def(vec![]), |g| arr_is(g, true, &[]), |n| n == 1);
+v2b!(c03_t_v2b_mia_def0, MaybeIndefArray<u8>, 3, (), MaybeIndefArray::Def(vec![]), |g| arr_is(g, true, &[]), |n| n == 1);
 v2b!(c03_q_v2b_mia_indef0, MaybeIndefArray<u8>, 3, (), MaybeIndefArray::Indef(vec![]), |g| arr_is(g, false, &[]), |n| n == 2);
 v2b!(c03_q_v2b_mia_def1_u32, MaybeIndefArray<u32>, 4, (a: u32), MaybeIndefArray::Def(vec![a]), |g| arr_is(g, true, &[a]), |n| n == 6);
 v2b!(c03_q_v2b_mia_indef2_bool, MaybeIndefArray<bool>, 5, (a: bool, b: bool), MaybeIndefArray::Indef(vec![a, b]), |g| arr_is(g, false, &[a, b]), |n| n == 4);
@@ -122,18 +122,18 @@ v2b!(c03_t_v2b_mia_def2_u64, MaybeIndefArray<u64>, 5, (a: u64, b: u64), MaybeInd
 v2b!(c03_t_v2b_mia_indef1_u64, MaybeIndefArray<u64>, 4, (a: u64), MaybeIndefArray::Indef(vec![a]), |g| arr_is(g, false, &[a]), |n| n == 11);
 
 // bound: Set / NonEmptySet (always written with tag 258) with 0..=2 symbolic elements of bool/u8/u32/u64 (2 integer elements: thorough only)
-v2b!(c03_q_v2b_set0, Set<u8>, 3, (), Set::from(vec![]), |g| vec_is(g.deref(), &[]), |n| n == 4);
+v2b!(c03_t_v2b_set0, Set<u8>, 3, (), Set::from(vec![]), |g| vec_is(g.deref(), &[]), |n| n == 4);
 v2b!(c03_q_v2b_set1_u32, Set<u32>, 4, (a: u32), Set::from(vec![a]), |g| vec_is(g.deref(), &[a]), |n| n == 9);
 v2b!(c03_q_v2b_set2_bool, Set<bool>, 5, (a: bool, b: bool), Set::from(vec![a, b]), |g| vec_is(g.deref(), &[a, b]), |n| n == 6);
 v2b!(c03_t_v2b_set2_u8, Set<u8>, 5, (a: u8, b: u8), Set::from(vec![a, b]), |g| vec_is(g.deref(), &[a, b]), |n| n == 8);
-v2b!(c03_q_v2b_neset1_u64, NonEmptySet<u64>, 4, (a: u64), NonEmptySet::from_vec(vec![a]).unwrap(), |g| vec_is(g.deref(), &[a]), |n| n == 13);
+v2b!(c03_t_v2b_neset1_u64, NonEmptySet<u64>, 4, (a: u64), NonEmptySet::from_vec(vec![a]).unwrap(), |g| vec_is(g.deref(), &[a]), |n| n == 13);
 v2b!(c03_q_v2b_neset2_bool, NonEmptySet<bool>, 5, (a: bool, b: bool), NonEmptySet::try_from(vec![a, b]).unwrap(), |g| vec_is(g.deref(), &[a, b]), |n| n == 6);
 v2b!(c03_t_v2b_neset2_u32, NonEmptySet<u32>, 5, (a: u32, b: u32), NonEmptySet::try_from(vec![a, b]).unwrap(), |g| vec_is(g.deref(), &[a, b]), |n| n == 14);
 
 // bound: Nullable<u8|u32> over Some(symbolic) / Null / Undefined
 v2b!(c03_q_v2b_nullable_some_u32, Nullable<u32>, 3, (a: u32), Nullable::Some(a), |g| matches!(g, Nullable::Some(x) if *x == a), |n| n == 5);
 v2b!(c03_q_v2b_nullable_null, Nullable<u8>, 3, (), Nullable::Null, |g| matches!(g, Nullable::Null), |n| n == 1);
-v2b!(c03_q_v2b_nullable_undef, Nullable<u8>, 3, (), Nullable::Undefined, |g| matches!(g, Nullable::Undefined), |n| n == 1);
+v2b!(c03_t_v2b_nullable_undef, Nullable<u8>, 3, (), Nullable::Undefined, |g| matches!(g, Nullable::Undefined), |n| n == 1);
 
 // bound: CborWrap<u8|u32|u64> (tag 24 + byte string holding the inner encoding), TagWrap<_, T> for T in {2, 24, 258}
 v2b!(c03_q_v2b_cborwrap_u32, CborWrap<u32>, 4, (a: u32), CborWrap(a), |g| g.0 == a, |n| n == 8);
@@ -149,21 +149,21 @@ v2b!(c03_q_v2b_emptymap, EmptyMap, 3, (), EmptyMap, |g| *g == EmptyMap, |n| n ==
 // bound: AnyUInt, one harness per variant, payload over the variant's full range (MajorByte: the CBOR immediates 0..=0x17)
 v2b!(c03_q_v2b_anyuint_major, AnyUInt, 4, (a: u8), { kani::assume(a <= 0x17); AnyUInt::MajorByte(a) }, |g| *g == AnyUInt::MajorByte(a), |n| n == 1);
 v2b!(c03_q_v2b_anyuint_u8, AnyUInt, 4, (a: u8), AnyUInt::U8(a), |g| *g == AnyUInt::U8(a), |n| n == 2);
-v2b!(c03_q_v2b_anyuint_u16, AnyUInt, 4, (a: u16), AnyUInt::U16(a), |g| *g == AnyUInt::U16(a), |n| n == 3);
+v2b!(c03_t_v2b_anyuint_u16, AnyUInt, 4, (a: u16), AnyUInt::U16(a), |g| *g == AnyUInt::U16(a), |n| n == 3);
 v2b!(c03_q_v2b_anyuint_u32, AnyUInt, 4, (a: u32), AnyUInt::U32(a), |g| *g == AnyUInt::U32(a), |n| n == 5);
-v2b!(c03_q_v2b_anyuint_u64, AnyUInt, 4, (a: u64), AnyUInt::U64(a), |g| *g == AnyUInt::U64(a), |n| n == 9);
+v2b!(c03_t_v2b_anyuint_u64, AnyUInt, 4, (a: u64), AnyUInt::U64(a), |g| *g == AnyUInt::U64(a), |n| n == 9);
 // bound: AnyUInt::MajorByte over the whole u8 payload the public variant admits (0x18..=0xff are not CBOR immediates)
 v2b!(c03_q_v2b_anyuint_major_wide, AnyUInt, 4, (a: u8), AnyUInt::MajorByte(a), |g| *g == AnyUInt::MajorByte(a), |n| n == 1);
 
 // bound: PositiveCoin over 1..=u64::MAX, NonZeroInt over i64 without 0 (values from the checked constructors)
-v2b!(c03_q_v2b_positive_coin, PositiveCoin, 3, (a: u64), { kani::assume(a != 0); PositiveCoin::try_from(a).unwrap() }, |g| u64::from(*g) == a, |n| n == 9);
-v2b!(c03_q_v2b_nonzero_int, NonZeroInt, 3, (a: i64), { kani::assume(a != 0); NonZeroInt::try_from(a).unwrap() }, |g| i64::from(*g) == a, |n| n == 9);
+v2b!(c03_t_v2b_positive_coin, PositiveCoin, 3, (a: u64), { kani::assume(a != 0); PositiveCoin::try_from(a).unwrap() }, |g| u64::from(*g) == a, |n| n == 9);
+v2b!(c03_t_v2b_nonzero_int, NonZeroInt, 3, (a: i64), { kani::assume(a != 0); NonZeroInt::try_from(a).unwrap() }, |g| i64::from(*g) == a, |n| n == 9);
 
 // bound: Int over the full CBOR integer range -2^64..=2^64-1
 v2b!(c03_q_v2b_int, Int, 3, (a: i128), { kani::assume(a >= -(1i128 << 64) && a < (1i128 << 64)); Int::try_from(a).unwrap() }, |g| i128::from(*g) == a, |n| n == 9);
 
 // bound: Bytes with 0 or 2 symbolic bytes (length concrete per harness)
-v2b!(c03_q_v2b_bytes0, Bytes, 3, (), Bytes::from(vec![]), |g| g.deref().len() == 0, |n| n == 1);
+v2b!(c03_t_v2b_bytes0, Bytes, 3, (), Bytes::from(vec![]), |g| g.deref().len() == 0, |n| n == 1);
 v2b!(c03_q_v2b_bytes2, Bytes, 4, (a: u8, b: u8), Bytes::from(vec![a, b]), |g| vec_is(g.deref(), &[a, b]), |n| n == 3);
 
 /// a property in the style of the era codecs: one map entry = key item followed by value item
@@ -189,7 +189,7 @@ impl<'b, C> minicbor::Decode<'b, C> for Prop {
     }
 }
 // bound: OrderPreservingProperties over 0..=2 symbolic (u8 key, u32 value) entries
-v2b!(c03_q_v2b_opp0, OrderPreservingProperties<Prop>, 3, (), OrderPreservingProperties::from(vec![]), |g| g.deref().len() == 0, |n| n == 1);
+v2b!(c03_t_v2b_opp0, OrderPreservingProperties<Prop>, 3, (), OrderPreservingProperties::from(vec![]), |g| g.deref().len() == 0, |n| n == 1);
 v2b!(c03_q_v2b_opp1, OrderPreservingProperties<Prop>, 4, (a: Prop), OrderPreservingProperties::from(vec![a]), |g| vec_is(g.deref(), &[a]), |n| n == 8);
 v2b!(c03_t_v2b_opp2, OrderPreservingProperties<Prop>, 5, (a: Prop, b: Prop), OrderPreservingProperties::from(vec![a, b]), |g| vec_is(g.deref(), &[a, b]), |n| n == 15);
 
@@ -269,7 +269,7 @@ pallas_codec::codec_by_datatype! {
 }
 // bound: codec_by_datatype! on a 3-variant enum (u32 | bool | array of (bool, u8, bool)), variant concrete per harness, fields symbolic
 v2b!(c03_q_v2b_bydt_coin, Thing, 3, (a: u32), Thing::Coin(a), |g| matches!(g, Thing::Coin(x) if *x == a), |n| n == 5);
-v2b!(c03_q_v2b_bydt_change, Thing, 3, (a: bool), Thing::Change(a), |g| matches!(g, Thing::Change(x) if *x == a), |n| n == 1);
+v2b!(c03_t_v2b_bydt_change, Thing, 3, (a: bool), Thing::Change(a), |g| matches!(g, Thing::Change(x) if *x == a), |n| n == 1);
 v2b!(c03_q_v2b_bydt_multi, Thing, 3, (a: bool, b: u8, c: bool), Thing::Multi(a, b, c), |g| matches!(g, Thing::Multi(x, y, z) if *x == a && *y == b && *z == c), |n| n == 5);
 
 // ---------------------------------------------------------------------------------------------
@@ -332,27 +332,27 @@ macro_rules! b2bx {
 // bound: AnyUInt from a buffer of exactly the item length, split by the class of the head byte (immediate 00..17 / 18 xx / 19 xxxx / 1a / 1b), payload symbolic
 b2b!(c03_q_b2b_anyuint_imm, AnyUInt, 1, 4, |b| { kani::assume(b[0] <= 0x17); });
 b2b!(c03_q_b2b_anyuint_h18, AnyUInt, 2, 4, |b| { b[0] = 0x18; });
-b2b!(c03_q_b2b_anyuint_h19, AnyUInt, 3, 4, |b| { b[0] = 0x19; });
+b2b!(c03_t_b2b_anyuint_h19, AnyUInt, 3, 4, |b| { b[0] = 0x19; });
 b2b!(c03_q_b2b_anyuint_h1a, AnyUInt, 5, 4, |b| { b[0] = 0x1a; });
-b2b!(c03_q_b2b_anyuint_h1b, AnyUInt, 9, 4, |b| { b[0] = 0x1b; });
+b2b!(c03_t_b2b_anyuint_h1b, AnyUInt, 9, 4, |b| { b[0] = 0x1b; });
 
 // bound: KeepRaw<u32> from an arbitrary (fully symbolic) buffer of 1, 2, 3, 5 and 9 bytes: every head the u32 decoder accepts incl. non-minimal ones, with and without trailing bytes
-b2b!(c03_q_b2b_keepraw_u32_n1, KeepRaw<u32>, 1, 3, |b| {});
+b2b!(c03_t_b2b_keepraw_u32_n1, KeepRaw<u32>, 1, 3, |b| {});
 b2b!(c03_q_b2b_keepraw_u32_n2, KeepRaw<u32>, 2, 3, |b| {});
-b2b!(c03_q_b2b_keepraw_u32_n3, KeepRaw<u32>, 3, 3, |b| {});
+b2b!(c03_t_b2b_keepraw_u32_n3, KeepRaw<u32>, 3, 3, |b| {});
 b2b!(c03_q_b2b_keepraw_u32_n5, KeepRaw<u32>, 5, 3, |b| {});
-b2b!(c03_q_b2b_keepraw_u32_n9, KeepRaw<u32>, 9, 3, |b| {});
+b2b!(c03_t_b2b_keepraw_u32_n9, KeepRaw<u32>, 9, 3, |b| {});
 
 // bound: Nullable<u8> from a buffer of exactly the item length: f6 / f7 / minimal u8 heads (immediate, 18 xx with xx >= 0x18; u8 itself does not keep a non-minimal head)
 b2b!(c03_q_b2b_nullable_null, Nullable<u8>, 1, 3, |b| { b[0] = 0xf6; });
-b2b!(c03_q_b2b_nullable_undef, Nullable<u8>, 1, 3, |b| { b[0] = 0xf7; });
+b2b!(c03_t_b2b_nullable_undef, Nullable<u8>, 1, 3, |b| { b[0] = 0xf7; });
 b2b!(c03_q_b2b_nullable_some_imm, Nullable<u8>, 1, 3, |b| { kani::assume(b[0] <= 0x17); });
-b2b!(c03_q_b2b_nullable_some_h18, Nullable<u8>, 2, 3, |b| { b[0] = 0x18; kani::assume(b[1] >= 0x18); });
+b2b!(c03_t_b2b_nullable_some_h18, Nullable<u8>, 2, 3, |b| { b[0] = 0x18; kani::assume(b[1] >= 0x18); });
 // bound: Nullable<KeepRaw<u32>> from an arbitrary 9-byte buffer (any head the inner accepts)
 b2bx!(c03_t_b2b_nullable_keepraw, Nullable<KeepRaw<u32>>, 9, 3, |b| {});
 
 // bound: KeyValuePairs<u8,u8> on hand-laid maps: a0 / bf ff / a1 k v / bf k v ff / a2 .. / bf .. ff with minimal u8 items (immediates, or 18 xx with xx >= 0x18)
-b2b!(c03_q_b2b_kvp_def0, KeyValuePairs<u8, u8>, 1, 3, |b| { b[0] = 0xa0; });
+b2b!(c03_t_b2b_kvp_def0, KeyValuePairs<u8, u8>, 1, 3, |b| { b[0] = 0xa0; });
 b2b!(c03_q_b2b_kvp_indef0, KeyValuePairs<u8, u8>, 2, 3, |b| { b[0] = 0xbf; b[1] = 0xff; });
 b2b!(c03_q_b2b_kvp_def1_imm, KeyValuePairs<u8, u8>, 3, 4, |b| { b[0] = 0xa1; kani::assume(b[1] <= 0x17 && b[2] <= 0x17); });
 b2b!(c03_q_b2b_kvp_indef1_h18, KeyValuePairs<u8, u8>, 6, 4, |b| { b[0] = 0xbf; b[1] = 0x18; b[3] = 0x18; b[5] = 0xff; kani::assume(b[2] >= 0x18 && b[4] >= 0x18); });
@@ -364,7 +364,7 @@ b2bx!(c03_t_b2b_kvp_def1_keepraw, KeyValuePairs<KeepRaw<u32>, KeepRaw<u32>>, 10,
 b2b!(c03_q_b2b_kvp_len_h18, KeyValuePairs<u8, u8>, 4, 4, |b| { b[0] = 0xb8; b[1] = 0x01; kani::assume(b[2] <= 0x17 && b[3] <= 0x17); });
 
 // bound: MaybeIndefArray<u8|u32> on hand-laid arrays: 80 / 9f ff / 81 x / 9f x ff / 82 x y / 9f x y ff with minimal items
-b2b!(c03_q_b2b_mia_def0, MaybeIndefArray<u8>, 1, 3, |b| { b[0] = 0x80; });
+b2b!(c03_t_b2b_mia_def0, MaybeIndefArray<u8>, 1, 3, |b| { b[0] = 0x80; });
 b2b!(c03_q_b2b_mia_indef0, MaybeIndefArray<u8>, 2, 3, |b| { b[0] = 0x9f; b[1] = 0xff; });
 b2b!(c03_q_b2b_mia_def1_imm, MaybeIndefArray<u8>, 2, 4, |b| { b[0] = 0x81; kani::assume(b[1] <= 0x17); });
 b2b!(c03_q_b2b_mia_indef1_u32, MaybeIndefArray<u32>, 7, 4, |b| { b[0] = 0x9f; b[1] = 0x1a; b[6] = 0xff; });
@@ -378,12 +378,12 @@ b2b!(c03_q_b2b_mia_len_h18, MaybeIndefArray<u8>, 3, 4, |b| { b[0] = 0x98; b[1] =
 
 // bound: AnyCbor (Decoder::skip) on hand-laid items of exactly the buffer length: 1a + 4 bytes, 38 + 1 byte, 42 + 2 bytes, 82 + two immediates, a1 + two immediates, c2 + immediate, f9 + 2 bytes
 b2b!(c03_q_b2b_anycbor_u32, AnyCbor, 5, 4, |b| { b[0] = 0x1a; });
-b2b!(c03_q_b2b_anycbor_nint8, AnyCbor, 2, 4, |b| { b[0] = 0x38; });
+b2b!(c03_t_b2b_anycbor_nint8, AnyCbor, 2, 4, |b| { b[0] = 0x38; });
 b2b!(c03_q_b2b_anycbor_bytes2, AnyCbor, 3, 5, |b| { b[0] = 0x42; });
 b2b!(c03_t_b2b_anycbor_arr2, AnyCbor, 3, 6, |b| { b[0] = 0x82; b[1] = 0x01; kani::assume(b[2] <= 0x17); });
 b2b!(c03_t_b2b_anycbor_map1, AnyCbor, 3, 6, |b| { b[0] = 0xa1; b[1] = 0x01; kani::assume(b[2] <= 0x17); });
 b2b!(c03_t_b2b_anycbor_tag, AnyCbor, 2, 5, |b| { b[0] = 0xc2; kani::assume(b[1] <= 0x17); });
-b2b!(c03_q_b2b_anycbor_f16, AnyCbor, 3, 4, |b| { b[0] = 0xf9; });
+b2b!(c03_t_b2b_anycbor_f16, AnyCbor, 3, 4, |b| { b[0] = 0xf9; });
 // bound: AnyCbor (Decoder::skip) from an arbitrary 3-byte buffer (fully symbolic: every major type, nesting, truncation)
 b2bx!(c03_t_b2b_anycbor_any3, AnyCbor, 3, 6, |b| {});
 
